@@ -25,8 +25,27 @@ type batchCase struct {
 }
 
 func build(c batchCase) ([]modbus.BuilderRequest, error) {
-	b := modbus.NewRequestBuilder("", 0).AddAll(c.Fields)
-	switch c.Target {
+	in := append([]modbus.Field(nil), c.Fields...)
+	b := modbus.NewRequestBuilder("", 0).AddAll(in)
+	// a builder may be asked for several kinds of requests: building another target first must not change what this
+	// target gets (and must not modify the caller's field slice)
+	if c.Target%3 != 0 {
+		other := batchCase{Target: (c.Target + 4) % 8}
+		_, _ = buildTarget(b, other.Target)
+		_, _ = buildTarget(b, (c.Target+1)%8)
+	}
+	defer func() {
+		for i := range in {
+			if in[i] != c.Fields[i] {
+				panic(fmt.Sprintf("builder modified the caller's field slice at index %d", i))
+			}
+		}
+	}()
+	return buildTarget(b, c.Target)
+}
+
+func buildTarget(b *modbus.Builder, target int) ([]modbus.BuilderRequest, error) {
+	switch target {
 	case 0:
 		return b.ReadCoilsTCP()
 	case 1:
